@@ -429,6 +429,8 @@ func c01NoIgnoredVerdict(c *Check, ci *cryptoInfo, vs []*verifier, v *verifier) 
 			}
 			res := gateWalk(p, fn, succ, nil, failStart)
 			c.Ob("R1.3", key, !res.Reached, p.Pos(cl.Pos()), "from the failure edge of this verdict no success return is reachable", res.Witness...)
+			res2 := gateWalkFrom(p, fn, cl.Block(), succ, verdictPassCut(cl, isBool), nil)
+			c.Ob("R1.3", key+":not bypassed", !res2.Reached, p.Pos(cl.Pos()), "from the call, a success return is reachable only across the pass edge of the test of this verdict", res2.Witness...)
 		}
 	}
 	_ = n
@@ -898,4 +900,22 @@ func requestRootsFor(p *Program, f *ssa.Function, cl *ssa.Call) *reqRootInfo {
 		}
 	}
 	return info
+}
+
+// verdictPassCut cuts the pass edge of tests of this call's verdict (bool result
+// true, or error result nil): a walk from the call that still reaches success
+// found a way around the test.
+func verdictPassCut(theCall *ssa.Call, isBool bool) EdgeCut {
+	return callGates(func(k *ssa.Call, idx int) GateKind {
+		if k != theCall {
+			return NotGate
+		}
+		if isBool {
+			if _, isTuple := theCall.Type().(*types.Tuple); !isTuple || idx == 0 {
+				return GateTrue
+			}
+			return NotGate
+		}
+		return GateErr
+	})
 }
